@@ -1,5 +1,6 @@
 #!/usr/bin/env python3
 """C12 - WASI file I/O returns the bytes, counts and offsets a POSIX file would (DESIGN.md 3/C12)."""
+import hashlib
 import os
 import random
 import shutil
@@ -149,10 +150,17 @@ def run_all(v, hists, wd, tier, pid="C12", ls_after=("open", "write", "pwrite", 
 
     def one_be(h):
         return wasi.run_history(exe_be, h["calls"], wd, h["id"] + "-be", setup=h["setup"], ls_after=ls_after)
-    results = pmap(one, hists) + pmap(one_tr, sub) + pmap(one_nat, sub2) + pmap(one_bad, sub3) + pmap(one_be, sub4)
+    # ... and the host process started with standard input (or standard error) closed - absent, not redirected: the numbering the guest
+    # sees is the same (0-2 the standard streams, 3 the pre-open, then upwards); calls on the absent stream itself are left out
+    sub5 = [h_ for h_ in (hists[::5] if tier == "quick" else hists) if not any(c_.get("fd") in (0, 2) or c_.get("dirfd") in (0, 2) for c_ in h_["calls"])]
+
+    def one_cl(h):
+        which = (0,) if int(hashlib.sha1(h["id"].encode()).hexdigest(), 16) % 2 else (2,)
+        return wasi.run_history(exe, h["calls"], wd, h["id"] + "-cl", setup=h["setup"], ls_after=ls_after, closed_at_start=which)
+    results = pmap(one, hists) + pmap(one_tr, sub) + pmap(one_nat, sub2) + pmap(one_bad, sub3) + pmap(one_be, sub4) + pmap(one_cl, sub5)
     distinct = set()
-    tags = [""] * len(hists) + ["-tr"] * len(sub) + ["-nat"] * len(sub2) + ["-bad"] * len(sub3) + ["-be"] * len(sub4)
-    for h, tag, (recs, index, err, rc, sb) in zip(list(hists) + list(sub) + list(sub2) + list(sub3) + list(sub4), tags, results):
+    tags = [""] * len(hists) + ["-tr"] * len(sub) + ["-nat"] * len(sub2) + ["-bad"] * len(sub3) + ["-be"] * len(sub4) + ["-cl"] * len(sub5)
+    for h, tag, (recs, index, err, rc, sb) in zip(list(hists) + list(sub) + list(sub2) + list(sub3) + list(sub4) + list(sub5), tags, results):
         h2id = h["id"] + tag
         ns = len(h["setup"])
         by_i = {r["i"]: r for r in recs if "i" in r}
@@ -178,7 +186,7 @@ def run_all(v, hists, wd, tier, pid="C12", ls_after=("open", "write", "pwrite", 
             compared += 1
             distinct.add(str(c) + str(m["errno"]))
             if why:
-                v.deviation((sig(c, why) + (":big-endian-host" if tag == "-be" else "")) if kind == "call" else "%s:host-files:%s" % (c["call"], "offset-above-32-bits" if c.get("offset", 0) >= 2 ** 32 else why.split(":")[0][:30]),
+                v.deviation((sig(c, why) + (":big-endian-host" if tag == "-be" else ":standard-stream-closed-at-start" if tag == "-cl" else "")) if kind == "call" else "%s:host-files:%s" % (c["call"], "offset-above-32-bits" if c.get("offset", 0) >= 2 ** 32 else why.split(":")[0][:30]),
                             {"history": h["id"], "call_index": j, "call": c, "why": why, "calls_so_far": [x["call"] for x in h["calls"][:j + 1]]})
                 break      # later observations of this history depend on the state that already differs
         if not poisoned and rc != 0:
